@@ -27,7 +27,8 @@ ASSUMPTIONS = ["sim=no selections only (ANTICHAINS_NOSIM, CONGR_DEPTH_NOSIM, CON
 FLAVOURS = {"quick": ["plain"], "thorough": ["plain", "asan"]}
 EXHAUSTIVE_SLICES = ("all pairs of NFAs with states {0,1}, <=2 edges over 2 letters, every start/final set, one representative per swap of the "
                      "two states (automata without start resp. without final states: one representative each): 171 x 171 pairs in the quick "
-                     "tier; the thorough tier enumerates all 592 x 592 labelled pairs (the run as a whole is not exhaustive)")
+                     "tier; the thorough tier enumerates the labelled automata without the swap reduction (335 x 335 pairs; automata without start "
+                     "resp. without final states still one representative each); the run as a whole is not exhaustive")
 
 CORPUS = [
     # boundaries
@@ -62,7 +63,7 @@ def cases(rng, tier):
     if tier == "quick":
         sl = gen_nfa.slice2(2)
     else:
-        sl = gen_nfa.slice2(2, iso=False, keep_trivial=True)
+        sl = gen_nfa.slice2(2, iso=False, keep_trivial=False)
     for a in sl:
         for b in sl:
             cs.append((line(rng, a, b), "exhaustive"))
